@@ -967,6 +967,17 @@ def filters_check(prop, tier):
         h = W.from_model(sc, len(scenarios) + 1)
         h["origin"] = "model with links"
         scenarios.append(h)
+    # depth behaviours under the layers: a directory with a child is discarded as a tree while the walk is bounded
+    # (every combination of minimum 0..2 and maximum 0..2 / none of the model) - what lies beneath it stays unread
+    # whatever the bounds say about its depth
+    def bounded_discard(s):
+        par = W.parent_list(s)
+        with_child = {par[i] for i in range(1, s["n"])}
+        return (s["min"] > 0 or s["max"] < 100) and any(lv[i] == "tree" and s["kind"][i] == "dir" and (i + 1) in with_child for lv in s["layers"] for i in range(s["n"]))
+    for sc in sample_model_scenarios(tier, rnd, 120 if tier == "quick" else 1200, W.mc_consts(4, 1, depths=True), "n4l1d", bounded_discard):
+        h = W.from_model(sc, len(scenarios) + 1)
+        h["origin"] = "model with depth bounds"
+        scenarios.append(h)
     scenarios += library_scenarios(prop, tier, len(scenarios) + 1, rnd)
     pivots = W.prepare_glob_scenarios(scenarios)
     results, yielded, tstats, ntraces = W.run_and_validate(prop, scenarios, prop.lower(), v, pivots=pivots)
